@@ -746,6 +746,10 @@ func runC12ListeningHttpServer(n int, r *rep.Report) (key, msg string, ok bool) 
 func TestC12(t *testing.T) {
 	r := rep.New(t, "C12")
 	defer r.Flush()
+	if r.Lane == 1%r.Lanes {
+		// peers that have stopped reading, then the session ends (real time, judged at rest)
+		stalledEndings(r, r.N(4, 64))
+	}
 	// journalled cases that have not ended after a minute of real time are examined (rep.Guard)
 	r.Guard(60 * time.Second)
 	if r.Lane == 3%r.Lanes {
